@@ -110,6 +110,22 @@ def handshake_submits(prefix, firsts, seconds, opts=None):
     return out
 
 
+def timeout_drops(prefix, base, ks=range(2, 5)):
+    """ResponseTimeout configured and a request or its acknowledgement swallowed by a broker that keeps the
+    connection open (first transmissions, and retransmissions after a cut)."""
+    out = []
+    i = 0
+    o2 = {"respTimeoutMs": 40, "connTimeoutMs": 80}
+    for w in base:
+        for k in ks:
+            for o in ("dropReq", "dropAck"):
+                out.append(rf.scenario("%s-%d" % (prefix, i), w, ["conn"] * len(w), [{"k": k, "o": o}], opts=dict(o2)))
+                i += 1
+                out.append(rf.scenario("%s-%d" % (prefix, i), w, ["conn"] * len(w), [{"k": 2, "o": "cutAfter"}, {"k": k + 2, "o": o}], opts=dict(o2)))
+                i += 1
+    return out
+
+
 KEPT = [[], [{"code": 5}, {}], [{}, {"code": 3}], [{}, {"silent": True}]]        # connack plans that never lose the session
 LOST = [[{}, {"sp": "false"}], [{}, {}, {"sp": "false"}], [{}, {"sp": "false"}, {"sp": "false"}]]
 
@@ -125,6 +141,7 @@ def scenarios_for(pid, tier, rng, comps):
                       optgen=lambda r: {"deliverOnRel": r.random() < 0.5, "alwaysResub": r.random() < 0.2})
         sc += handshake_submits("c01h", [PUB(1), SUB(("s", 1))], [PUB(1), PUB(2), SUB(("x", 1)), UNSUB("x")])
         sc += deep_switch("c01d", [PUB(0), PUB(1), PUB(2), SUB(("s", 1))], [PUB(1), PUB(2), SUB(("x", 1)), UNSUB("x")])
+        sc += timeout_drops("c01t", [[PUB(1)], [PUB(2)], [SUB(("x", 1))], [UNSUB("x")], [SUB(("x", 1)), UNSUB("x"), PUB(1)]])
     elif pid == "C02":
         q2 = [w for w in comps["w_pub"] if any(r["q"] == 2 for r in w)]
         for m in (False, True):
@@ -133,6 +150,7 @@ def scenarios_for(pid, tier, rng, comps):
         sc += sampled("c02r", rng, n, comps2, ["w_q2", "w_q2", "w_q2m"], connacks=KEPT + [[]] * 4,
                       optgen=lambda r: {"deliverOnRel": r.random() < 0.5})
         sc += deep_switch("c02d", [PUB(0), PUB(2)], [PUB(2)])
+        sc += timeout_drops("c02t", [[PUB(2)], [PUB(2), PUB(2)], [PUB(1), PUB(2)]], ks=range(2, 6))
     elif pid == "C03":
         sc += single_faults("c03s", [w for w in comps["w_pub"] if len(w) == 2] + ([] if q else small("w_mixed", 2)))
         sc += handshake_submits("c03h", [PUB(1), PUB(2)], [PUB(0), PUB(1), PUB(2), SUB(("x", 1))])
@@ -144,6 +162,7 @@ def scenarios_for(pid, tier, rng, comps):
                                 ks=range(2, 6), connacks=ca)
         sc += sampled("c08r", rng, n, comps, ["w_sub"], connacks=LOST + LOST + KEPT + [[]],
                       optgen=lambda r: {"alwaysResub": r.random() < 0.3, "epilogueLoseSession": r.random() < 0.5})
+        sc += timeout_drops("c08t", [[SUB(("x", 1)), UNSUB("x")], [SUB(("x", 1)), SUB(("y", 2)), UNSUB("y")], [UNSUB("x"), SUB(("x", 2))]])
         # book-keeping of established subscriptions: the same single-fault core, followed by a broker restart
         sc += single_faults("c08e", [w for w in small("w_sub", 2) if len(w) == 2][(1 if q else 0)::(3 if q else 1)], ks=range(2, 5),
                             opts={"epilogueLoseSession": True})
@@ -153,6 +172,7 @@ def scenarios_for(pid, tier, rng, comps):
         sc += sampled("c12r", rng, n, comps3, ["w_pub", "w_mixed"], connacks=KEPT + [[]] * 4,
                       optgen=lambda r: {"deliverOnRel": r.random() < 0.5})
         sc += deep_switch("c12d", [PUB(1), PUB(2)], [PUB(1), PUB(2)])
+        sc += timeout_drops("c12t", [[PUB(1)], [PUB(2)], [PUB(2), PUB(1)]], ks=range(2, 6))
         sc += handshake_submits("c12h", [PUB(1), PUB(2)], [PUB(0), PUB(2)])
         # the application re-uses one Message value: a retransmission must not leave DUP set for the next first transmission
         i = 0
@@ -204,7 +224,9 @@ def c17_scenarios(rng, n):
                 tm = [place, "conn" if place in ("pre", "conn") else place]
                 if place == "idle":
                     tm = ["idle", "idle"]
-                inbound = [{"g": g, "after": 0, "q": q, "tag": 100 + g} for g in range(1, nre + 2)]
+                # on connections after a reconnect the broker may mark what it sends as a re-delivery (DUP): a new
+                # connection object has no memory of earlier deliveries, the handler still has to receive it
+                inbound = [{"g": g, "after": 0, "q": q, "tag": 100 + g, "dup": g > 1 and q > 0 and i % 2 == 1} for g in range(1, nre + 2)]
                 inbound += [{"g": nre + 1, "after": 1, "q": q, "tag": 200}]
                 sc = rf.scenario("c17-%d" % i, wl, tm, faults, inbound=inbound)
                 out.append(sc)
@@ -259,7 +281,8 @@ def model_instances(pid, tier):
             inst += [([PUB(1), PUB(0), PUB(2)], dict(faults=2)), ([SUB(("x", 1)), PUB(1), UNSUB("x")], dict(faults=2)), ([PUB(2), PUB(1)], dict(faults=3))]
     elif pid == "C08":
         inst = [([SUB(("x", 1)), PUB(1), UNSUB("x")], dict(faults=2, sessions=(True, False))),
-                ([SUB(("x", 0)), SUB(("x", 1)), UNSUB("x")], dict(faults=2, sessions=(True, False), always_resub=True))]
+                ([SUB(("x", 0)), SUB(("x", 1)), UNSUB("x")], dict(faults=2, sessions=(True, False), always_resub=True)),
+                ([PUB(1), SUB(("y", 1)), UNSUB("y")], dict(faults=2, resp_timeout=True))]
         if not q:
             inst += [([SUB(("x", 1), ("y", 0)), UNSUB("x", "x"), SUB(("y", 1))], dict(faults=2, sessions=(True, False))),
                      ([UNSUB("x", "y"), SUB(("x", 1)), UNSUB("x")], dict(faults=3, sessions=(True, False))),
